@@ -81,8 +81,57 @@ def cors_stages(sample, n_go):
             {'kind': 'gen', 'name': 'corsprod', 'module': 'MC_Cors', 'trace': 'Trace_Router', 'sample': sample, 'min_per_shard': 1}]
 
 
+RULE_GROUP = ('TLC generates histories of Group.Add/New/Remove/Use over a pool of 11 matcher expressions (Hosts, path/header version, And/Or combinations, nil) '
+              'followed by a product of requests (host x path x Accept x method; for C16 fault site x panic value); each is executed through Group.ServeHTTP / Router.ServeHTTP '
+              'and validated against Group.tla / Matchers.tla. Non-trivial = any reply.')
+
+
+def group_stages(depth, sel, sample, recs='{FALSE, TRUE}', sim=None):
+    c = {'Depth': depth, 'EmitAll': 'TRUE', 'Recs': recs, 'ReqSel': '"%s"' % sel}
+    st = [{'kind': 'mc', 'name': 'matchers', 'module': 'MC_Group', 'consts': dict(c, Depth=0), 'invariants': ['NoTrace'], 'workers': 2},
+          {'kind': 'mc', 'name': 'group', 'module': 'MC_Group', 'consts': dict(c, Depth=2), 'invariants': ['NamesUnique', 'FirstWins'], 'workers': 16, 'view': 'viewG'},
+          {'kind': 'gen', 'name': 'grp%s%d' % (sel, depth), 'module': 'MC_Group', 'consts': c, 'trace': 'Trace_Group', 'sample': sample, 'min_per_shard': 4}]
+    return st
+
+
+RULE_MATCH = ('TLC generates (C14) every history up to the depth of Hosts.Add / Delete (case variants, absent, parameterised domains) from three base tables (>= 7 literal domains + wildcard domains), '
+              'each followed by a probe set of Host strings (as is, upper case, :80, :, invalid port, bracketed IPv6); (C15) every ordered version list x every path up to the length bound over {/ v 1 x}, '
+              'and header-version declarations x Accept strings (mime.ParseMediaType answer logged). Every call is executed on the real matcher and validated against Matchers.tla. Non-trivial = accepted matches and rejected near-misses alike (all events).')
+
+
+def match_stages(mode, depth, pathlen, sample=None):
+    c = {'Mode': '"%s"' % mode, 'Depth': depth, 'PathLen': pathlen}
+    inv = {'hosts': ['NormSane'], 'pathver': ['PathVerSane'], 'headerver': []}[mode]
+    st = []
+    if inv:
+        st.append({'kind': 'mc', 'name': 'm-' + mode, 'module': 'MC_Match', 'consts': dict(c, Depth=0), 'invariants': inv, 'workers': 8})
+    st.append({'kind': 'gen', 'name': 'g-' + mode, 'module': 'MC_Match', 'consts': c, 'trace': 'Trace_Match', 'sample': sample, 'min_per_shard': 1})
+    return st
+
+
+RULE_PARAMS = ('TLC generates every sequence of Set/Delete/Reset/recycle(Destroy+NewContext) up to the depth over 3 keys (incl. the empty key) x 16 edge-case values; '
+               'after every operation all accessors are recorded for every key together with the logged strconv answers and validated against Params.tla. Non-trivial = every accessor observation.')
+
+
+def params_stages(depth, sample):
+    return [{'kind': 'mc', 'name': 'params', 'module': 'MC_Params', 'subst': {'Keys': 'KeysP', 'Vals': 'ValsSmall'}, 'consts': {'Depth': 4, 'EmitAll': 'FALSE'},
+             'invariants': ['MapLaws'], 'view': 'viewP', 'workers': 8},
+            {'kind': 'gen', 'name': 'params%d' % depth, 'module': 'MC_Params', 'subst': {'Keys': 'KeysP', 'Vals': 'ValsP'}, 'consts': {'Depth': depth, 'EmitAll': 'TRUE'},
+             'trace': 'Trace_Params', 'sample': sample, 'min_per_shard': 50}]
+
+
 def plan(prop, tier):
     q = tier == 'quick'
+    if prop == 'C20':
+        return {'stages': params_stages(2, 1.0) + params_stages(3, 0.1 if q else 0.6)[1:], 'rule': RULE_PARAMS, 'assumptions': ASSUME_COMMON}
+    if prop == 'C14':
+        return {'stages': match_stages('hosts', 2 if q else 3, 1, 1.0 if q else 0.5), 'rule': RULE_MATCH, 'assumptions': ASSUME_COMMON}
+    if prop == 'C15':
+        return {'stages': match_stages('pathver', 0, 6 if q else 7) + match_stages('headerver', 0, 1), 'rule': RULE_MATCH, 'assumptions': ASSUME_COMMON}
+    if prop == 'C13':
+        return {'stages': group_stages(2 if q else 3, 'C13', 0.5 if q else 0.25), 'rule': RULE_GROUP, 'assumptions': ASSUME_COMMON}
+    if prop == 'C16':
+        return {'stages': group_stages(2 if q else 2, 'C16', 0.1 if q else 0.6), 'rule': RULE_GROUP, 'assumptions': ASSUME_COMMON}
     if prop in ('C11', 'C12'):
         return {'stages': cors_stages(0.2 if q else 1.0, 0), 'rule': RULE_CORS, 'assumptions': ASSUME_COMMON}
     if prop == 'C08':
